@@ -22,7 +22,10 @@ OPTS3 = ['GreyWolfOptimization', 'BatOptimization', 'ParticleSwarmOptimization']
 
 def fresh_opt(optname, proto, mode, W, task_seed=None):
     o = registry.make(optname)
-    o._task = tasks.make_task(proto, seed=task_seed)
+    mm = 'min'
+    if proto.endswith('^max'):
+        proto, mm = proto[:-4], 'max'
+    o._task = tasks.make_task(proto, minmax=mm, seed=task_seed)
     o._mode = ModeSolver(mode)
     o._workers = W
     return o
@@ -42,7 +45,9 @@ def judge(agents, n, task, calls_per_agent=None):
         if pr is not None:
             out.append(('infeasible-position', f"{pr} {a.position!r:.100}"))
             break
-        if not _close(tasks.user_cost(task, a.position), a.cost):
+        # agents still carry the INTERNAL cost here: the user's cost, negated for a maximisation task
+        sign = 1.0 if str(task.minmax) == 'min' else -1.0
+        if not _close(sign * tasks.user_cost(task, a.position), a.cost):
             out.append(('untruthful-cost', f"cost {a.cost!r} at {a.position!r:.100}"))
             break
     if tasks.OBJ['bad']:
@@ -105,7 +110,7 @@ def atomic_family(args):
 
 
 def run_atomic(rep, ns, Ws, s0):
-    work = [(o, p, n, W, s0) for o in OPTS3 for p in ('cont3z', 'mixed3') for n in ns for W in Ws]
+    work = [(o, p, n, W, s0) for o in OPTS3 for p in ('cont3z', 'mixed3', 'cont3z^max') for n in ns for W in Ws]
     # tasks that carry an integer seed (the library seeds the generator from it before the population is generated)
     work += [(o, 'cont3z', n, W, s0, 5) for o in OPTS3 for n in ns for W in Ws]
     tot = dist = 0
@@ -173,6 +178,7 @@ def run_interleaved(rep, tier, s0):
     cap = 6000 if tier == 'quick' else 60000
     for o in OPTS3:
         work.append((o, 'cont3z', 2, 2, None, False, s0, cap))          # unbounded for n = 2
+        work.append((o, 'cont3z^max', 2, 2, None, False, s0, cap))      # a maximisation task
         work.append((o, 'cont3z', 3, 2, 3 if tier != 'quick' else 2, False, s0, cap))
         work.append((o, 'cont3z', 3, 3, 3 if tier != 'quick' else 2, False, s0, cap))
         work.append((o, 'mixed3', 2, 2, 1 if tier == 'quick' else 2, True, s0, cap))      # line granularity
